@@ -41,7 +41,8 @@ def apply_sar_adc_with_noise(
     ndarray
         2D digitized array.
     """
-    data_digitized_2d = np.zeros((num_rows, num_cols))
+    # Accumulate the bits as integers (a float cannot hold codes above 53 bits)
+    data_digitized_2d = np.zeros((num_rows, num_cols), dtype=np.uint64)
 
     signal_normalized_2d = signal_2d.copy()
 
@@ -60,7 +61,7 @@ def apply_sar_adc_with_noise(
 
         # All data that is higher than the ref is equal to the dig. value
         mask_2d: np.ndarray = signal_normalized_2d >= ref_2d
-        data_digitized_2d += digital_value * mask_2d
+        data_digitized_2d += np.uint64(digital_value) * mask_2d.astype(np.uint64)
 
         # Subtract ref value from the data
         signal_normalized_2d -= ref_2d * mask_2d
